@@ -50,7 +50,7 @@ NS = {'p': 'urn:p', 'q': 'urn:q'}
 WORDS = ['', 'x', 'y', 'x y', 'hello world', 'z', 'a,b', ' ', 'q"r', 'é€', 'line\nbreak', '\U0001F600']
 
 
-def gen_tree(rng, n, ns=True, comments=True, texts=True, tags=None, attrs=None, words=None):
+def gen_tree(rng, n, ns=True, comments=True, texts=True, tags=None, attrs=None, words=None, attr_counts=(0, 0, 1, 2), values=('1', '2', '3')):
     tags = list(tags or ['a', 'b', 'c']) + (['{urn:p}a', '{urn:q}b'] if ns else [])
     attrs = attrs or (['i', 'j', 'k', '{urn:p}i'] if ns else ['i', 'j', 'k'])
     words = words or WORDS[:6]
@@ -65,8 +65,8 @@ def gen_tree(rng, n, ns=True, comments=True, texts=True, tags=None, attrs=None, 
                 e = etree.Element(t, nsmap=NS if ns else None)
             else:
                 e = etree.SubElement(parent, t)
-            for k in rng.sample(attrs, rng.choice([0, 0, 1, 2])):
-                e.set(k, rng.choice(['1', '2', '3']))
+            for k in rng.sample(attrs, min(len(attrs), rng.choice(attr_counts))):
+                e.set(k, rng.choice(values))
             if texts and rng.random() < 0.4:
                 e.text = rng.choice(words) or None
         if texts and parent is not None and rng.random() < 0.3:
